@@ -571,6 +571,31 @@ def check(ctx):
                        f"markers survive as raw text)", clause="a dtype/type mapping gives the same result as reading everything and then casting")
     ctx.count("foreign parsing calls in readers with a type map", n_parse, 1)
     ctx.count("restriction/typing parameters of readers", n_live, 14)
+    # ARG-keys: a type map / restriction is matched against the file's column names AS THEY ARE IN THE FILE.  Rebuilding the
+    # parameter through a comprehension over it (`{str(k).strip(): v for k, v in dtypes.items()}`, `[c.lower() for c in columns]`)
+    # changes the names that are looked up, so a file column whose name has that shape (padded, upper case) no longer gets its
+    # type / is no longer found, while the unrestricted read still returns it.  Defaulting (`dtypes or {}`) and copying are not touched.
+    ctx.rule("ARG-keys", "a type map or column restriction is looked up by the caller's names, not by normalised ones")
+    for q_, fn in sorted(repo.functions.items()):
+        if fn.module.name not in ("dataiter.data_frame", "dataiter.list_of_dicts", "dataiter.io", "dataiter.geojson", "dataiter.util"):
+            continue
+        for P in [p_ for p_ in ("dtypes", "columns", "keys", "types") if p_ in fn.kwonly + fn.params]:
+            for a in [n for n in body_nodes(fn.node) if isinstance(n, ast.Assign) and any(isinstance(t, ast.Name) and t.id == P for t in n.targets)]:
+                comps = [c for c in ast.walk(a.value) if isinstance(c, (ast.DictComp, ast.ListComp, ast.SetComp, ast.GeneratorExp))
+                         and any(any(isinstance(y, ast.Name) and y.id == P for y in ast.walk(g.iter)) for g in c.generators)]
+                changed = []
+                for c in comps:
+                    key = c.key if isinstance(c, ast.DictComp) else c.elt
+                    tgt = c.generators[0].target
+                    first = tgt.elts[0] if isinstance(tgt, ast.Tuple) and isinstance(c, ast.DictComp) else tgt
+                    if norm(key) != norm(first):
+                        changed.append((c, key))
+                if comps:
+                    ctx.ob("ARG-keys", fn, norm(a)[:70], a, not changed,
+                           f"{P} is rebuilt with its names unchanged" if not changed else
+                           f"`{norm(changed[0][1])[:40]}` replaces the names of {P} before they are matched against the file's columns: a column "
+                           f"whose name differs from its normalised form loses its type / is not found, unlike in the full read",
+                           clause="restricting or typing a read never changes what is read")
     ctx.count("positional labelling sites", n_sites, 2)
 
 
